@@ -95,7 +95,7 @@ func c01exec(c *Ctx, st *c01state, op Op, rng *rand.Rand, light bool) Ev {
 	t2 := geti(op, "t2")
 	ev := Ev{"op": name, "t": t, "t2": t2, "beta": 0, "rev": false, "k": [2]int{0, 0}, "keys": [][2]int{},
 		"res": true, "len": 0, "empty": true, "height": -1, "mag": st.mag, "full": 0, "ino": [][2]int{}, "min": [2]int{0, 0},
-		"max": [2]int{0, 0}, "stop": 0, "pre": [][2]int{}, "gets": [][5]int{}, "afters": []any{}, "others": [][3]int{}}
+		"max": [2]int{0, 0}, "stop": 0, "pre": [][2]int{}, "gets": [][5]int{}, "afters": []any{}, "others": [][7]int{}}
 	guard(ev, func() {
 		var k sk
 		if has(op, "k") {
@@ -148,10 +148,11 @@ func c01exec(c *Ctx, st *c01state, op Op, rng *rand.Rand, light bool) Ev {
 		ev["height"] = treeHeight(tr)
 		// the trees this call did not touch (an original and its clones are independent):
 		// their Len and height must still be what their own history determines
-		others := [][3]int{}
+		others := [][7]int{}
 		for id := 1; id <= len(st.trees)+1; id++ {
 			if ot, ok := st.trees[id]; ok && id != o && (!light || ot.Len() < 600) {
-				others = append(others, [3]int{id, treeHeight(ot), ot.Len()})
+				mn, mx := kj(ot.Min()), kj(ot.Max())
+				others = append(others, [7]int{id, treeHeight(ot), ot.Len(), mn[0], mn[1], mx[0], mx[1]})
 			}
 		}
 		ev["others"] = others
@@ -451,6 +452,20 @@ func c01gen(c *Ctx, label string, nh int, maxKeys int) {
 					if ntrees < 3 && r < 8 {
 						ntrees++
 						do(Op{"op": "clone", "t": t, "t2": ntrees})
+						// right after the fork: the smallest and the largest key of one side are replaced by
+						// equivalent ones, removed, and undercut / topped; the other side must not notice
+						if tr := st.trees[t]; tr != nil && tr.Len() > 0 {
+							mn, mx := tr.Min(), tr.Max()
+							do(Op{"op": "replace", "t": t, "k": fresh(mn.C)})
+							do(Op{"op": "replace", "t": t, "k": fresh(mx.C)})
+							if rng.Intn(2) == 0 {
+								do(Op{"op": "remove", "t": t, "k": [2]int{mn.C, 0}})
+								do(Op{"op": "add", "t": t, "k": fresh(mn.C - 1)})
+							} else {
+								do(Op{"op": "remove", "t": ntrees, "k": [2]int{mx.C, 0}})
+								do(Op{"op": "add", "t": ntrees, "k": fresh(mx.C + 1)})
+							}
+						}
 					} else if r < 50 {
 						do(Op{"op": "add", "t": t, "k": fresh(rng.Intn(24))})
 					} else if r < 65 {
@@ -574,7 +589,7 @@ func c01sliceRun(h *Hist, ops []Op) {
 		}
 		h.Emit(Ev{"op": name, "t": 1, "t2": 0, "beta": beta, "rev": false, "k": k, "keys": [][2]int{}, "res": res, "len": t.Len(),
 			"empty": t.IsEmpty(), "height": -2, "mag": 1, "full": 1, "ino": ino, "min": mn, "max": mx, "stop": 0, "pre": ino,
-			"gets": gl, "afters": []any{}, "others": [][3]int{}, "panic": pan, "keytype": "slice"})
+			"gets": gl, "afters": []any{}, "others": [][7]int{}, "panic": pan, "keytype": "slice"})
 	}
 	emit("new", [2]int{0, 0}, true, "")
 	for _, op := range ops[1:] {
